@@ -215,6 +215,9 @@ type Model struct {
 	Sils    map[string]*mSilence         // id -> silence
 	// Disturb are instants at which the instance was reloaded, (re)started or crashed.
 	Disturb []Dur
+	// Starts are the instants at which an incarnation of the process started:
+	// alerts are not persisted, so submissions before the latest start are gone.
+	Starts []Dur
 	Breaks  []Dur // every instant at which some predicate may change
 	ResolveTimeout Dur
 	cal map[string]*TimeInterval
@@ -258,6 +261,31 @@ func (m *Model) KeyRoutes() map[string]map[*MRoute]bool {
 					delete(cur, r)
 				}
 			}
+		}
+	}
+	// Narrow what is still ambiguous by looking for the route's own matchers in the
+	// key text (only ever narrows; if nothing is left the set is kept as it was).
+	for k, c := range m.keyRoutes {
+		if len(c) < 2 {
+			continue
+		}
+		gkey := k[strings.IndexByte(k, 0)+1:]
+		keep := map[*MRoute]bool{}
+		for r := range c {
+			ok := true
+			for x := r; x != nil; x = x.Parent {
+				for _, mm := range x.Matchers {
+					if !strings.Contains(gkey, mm.String()) {
+						ok = false
+					}
+				}
+			}
+			if ok {
+				keep[r] = true
+			}
+		}
+		if len(keep) > 0 && len(keep) < len(c) {
+			m.keyRoutes[k] = keep
 		}
 	}
 	for changed := true; changed; {
@@ -309,6 +337,9 @@ func BuildModel(p *Plan, h *History, inst int) *Model {
 	for _, e := range h.Events {
 		if e.Inst == m.Name && (e.Kind == "start" || e.Kind == "stop" || e.Kind == "crash" || e.Kind == "reload") {
 			m.Disturb = append(m.Disturb, e.T)
+		}
+		if e.Inst == m.Name && e.Kind == "start" {
+			m.Starts = append(m.Starts, e.T)
 		}
 	}
 	for _, rec := range h.API {
@@ -452,21 +483,34 @@ func validPAlert(a *PAlert) bool {
 // time in force is that of the latest accepted submission.
 func (m *Model) Firing(lk string, t Dur) bool {
 	subs := m.Subs[lk]
+	born := m.bornAt(t)
 	var cur *subm
 	for i := range subs {
-		if subs[i].T <= t {
+		if subs[i].T <= t && subs[i].T >= born {
 			cur = &subs[i]
 		}
 	}
 	return cur != nil && cur.End > t && cur.Start <= t
 }
 
+// bornAt returns the start instant of the incarnation running at t.
+func (m *Model) bornAt(t Dur) Dur {
+	var b Dur
+	for _, s := range m.Starts {
+		if s <= t {
+			b = s
+		}
+	}
+	return b
+}
+
 // EndInForce returns the end time of lk in force at t (ok=false if never submitted).
 func (m *Model) EndInForce(lk string, t Dur) (Dur, bool) {
 	subs := m.Subs[lk]
+	born := m.bornAt(t)
 	var cur *subm
 	for i := range subs {
-		if subs[i].T <= t {
+		if subs[i].T <= t && subs[i].T >= born {
 			cur = &subs[i]
 		}
 	}
